@@ -12,7 +12,7 @@ from lib.regmodel import *
 from lib import v14ref
 from mirsym.engine import *
 from mirsym.models import deref, payload, seq_elems, is_variant
-from mirsym.codec_models import CODEC_MODELS, CODEC_SUBST, InBuf, OutBuf, utf8_valid
+from mirsym.codec_models import CODEC_MODELS, CODEC_SUBST, InBuf, OutBuf, utf8_valid, AbsElems, ABS_MODELS, ABS_ELEM_CAP
 
 
 def string_factory(slen_of):
@@ -77,7 +77,125 @@ def body_codec(n, vec_cap=1, param_cap=1, slen=1, template=None, idmode='full', 
     return body
 
 
+# ----------------------------------------------------------------------------- length abstraction: vectors of ANY length (below 2^32)
+ELEM = z3.DeclareSort('Elem')
+ABS_ENTRIES = {'Type': 'ty::Type<PortableForm>', 'Variant': 'variant::Variant<PortableForm>', 'Field': 'fields::Field<PortableForm>', 'PortableRegistry': 'PortableRegistry'}
+
+
+def abs_value(M, entry):
+    """a value of the entry type whose vectors all have a symbolic length N < 2^32 and opaque elements; scalars, options, strings symbolic"""
+    cnt = [0]; vecs = []
+    def fresh(nm, w):
+        cnt[0] += 1; return z3.BitVec('%s%d' % (nm, cnt[0]), w)
+    def vec(tag):
+        cnt[0] += 1; n = z3.BitVec('N_%s%d' % (tag, cnt[0]), 64); M.add(z3.ULT(n, bv(1 << 32, 64)))
+        v = ArrVec(n, z3.Array('E_%s%d' % (tag, cnt[0]), z3.BitVecSort(64), ELEM)); vecs.append((tag, v)); return v
+    def string():
+        b = fresh('s', 8); M.add(utf8_valid([b])); return ValSlice([b], True)
+    def opt(mk):
+        d = fresh('opt', 64); M.add(z3.ULT(d, 2)); return EnumV('Option', d, {0: [], 1: [mk()]})
+    def sym(): return [fresh('id', 32), None]
+    def field(): return [opt(string), sym(), opt(string), vec('field.docs')]
+    def variant(): return [string(), vec('variant.fields'), fresh('vidx', 8), vec('variant.docs')]
+    def typedef():
+        d = fresh('kind', 64); M.add(z3.ULT(d, 8)); p = fresh('prim', 64); M.add(z3.ULT(p, 15))
+        return EnumV('TypeDef', d, {0: [[vec('composite.fields')]], 1: [[vec('variant.variants')]], 2: [[sym()]], 3: [[fresh('alen', 32), sym()]], 4: [[vec('tuple.fields')]],
+                                    5: [EnumV('TypeDefPrimitive', p, {k: [] for k in range(15)})], 6: [[sym()]], 7: [[sym(), sym()]]})
+    def ty(): return [[vec('path.segments')], vec('type.type_params'), typedef(), vec('type.docs')]
+    v = {'Type': ty, 'Variant': variant, 'Field': field, 'PortableRegistry': lambda: [vec('registry.types')]}[entry]()
+    return v, vecs
+
+
+def abs_ref(M, entry, v):
+    out = []
+    if entry == 'Type': v14ref.ref_type(M, out, v)
+    elif entry == 'Field': v14ref.ref_field(M, out, v)
+    elif entry == 'Variant':
+        v14ref.ref_string(M, out, v[0]); v14ref.ref_fields(M, out, v[1]); out.append(v[2]); v14ref.ref_strings(M, out, v[3])
+    else: return v14ref.ref_registry(M, v)
+    return out
+
+
+def body_lengths(entry, wrong=False):
+    """encode then decode a value whose vectors have an arbitrary length: the length prefix is exact for every N, nothing depends on N besides the
+    prefix, the decoder accepts every N and restores it.  Elements are opaque (their own codec is the subject of the bounded harnesses)."""
+    def body(M):
+        check_decls(M.decls, M)
+        v, vecs = abs_value(M, entry)
+        orig = snapshot_abs(v)
+        out = OutBuf()
+        M.run_fn(M.resolve('<%s as Encode>::encode_to' % ABS_ENTRIES[entry]), [Ref(Cell(v)), Ref(Cell(out))])
+        lib = [b if isinstance(b, AbsElems) else z3.simplify(b) for b in out.bytes]
+        viol = []
+        ref = abs_ref(M, entry, orig)
+        if len(ref) != len(lib) or any(isinstance(a, AbsElems) != isinstance(b, AbsElems) for a, b in zip(lib, ref)): viol.append(('C06 encoder: stream shape differs from the reference for some vector length', z3.BoolVal(True)))
+        else:
+            for a, b in zip(lib, ref):
+                if isinstance(a, AbsElems): viol.append(('C06 encoder: element block differs from the reference', z3.BoolVal(not a.same(b))))
+                else: viol.append(('C06 encoder: bytes differ from the reference for some vector length', a != z3.simplify(b)))
+        inp = InBuf(lib)
+        r = M.run_fn(M.resolve('<%s as Decode>::decode' % ABS_ENTRIES[entry]), [Ref(Cell(inp))])
+        if is_variant(M, r, 1, 'decode.result'): viol.append(('C07 decode of own encoding is Err for some vector length', z3.BoolVal(True)))
+        else:
+            d = []; v14ref.struct_diff(orig, payload(r, 0)[0], z3.BoolVal(True), d)
+            viol += [('C07 decoded value differs at ' + w, c) for w, c in d]
+            rest = inp.bytes[inp.pos:]
+            for it in rest:
+                if isinstance(it, AbsElems): viol.append(('C07 decoder stopped after %d of the N elements of a vector' % it.used, it.n != bv(it.used, 64)))
+                else: viol.append(('C07 bytes left over', z3.BoolVal(True)))
+        viol += [('C07 ' + w, c) for w, c in M.aux.get('abs_viol', [])]
+        if wrong: viol = [('WRONG: no vector longer than 255', z3.Or([z3.UGT(x.len, 255) for _, x in vecs]))]
+        m = M.model(z3.Or([c for _, c in viol]))
+        if m is None:
+            M.emit('ok', items=len(lib)); return
+        # smallest lengths that still fail: the native replay builds vectors of that many elements
+        cond = z3.Or([c for _, c in viol])
+        M.add(cond)
+        lens = {}
+        for tag, x in vecs:
+            lo = 0; cur = m.eval(x.len, model_completion=True).as_long()
+            while lo < cur:     # binary search for the least feasible length of this vector (others free)
+                mid = (lo + cur) // 2
+                m2 = M.model(z3.ULE(x.len, mid))
+                if m2 is None: lo = mid + 1
+                else: cur = m2.eval(x.len, model_completion=True).as_long()
+            M.add(x.len == cur); lens[tag] = cur
+        m = M.model()
+        which = sorted({w for w, c in viol if z3.is_true(m.eval(c, model_completion=True))})
+        kd = None
+        if entry == 'Type': kd = m.eval(orig[2].discr, model_completion=True).as_long()
+        M.emit('cex', what='lengths', entry=entry, failed=which[:5], lens=lens, defkind=kd)
+    return body
+
+
+def snapshot_abs(v):
+    if isinstance(v, ArrVec): return ArrVec(v.len, v.data)
+    if isinstance(v, list): return [snapshot_abs(x) for x in v]
+    if isinstance(v, EnumV): return EnumV(v.enum, v.discr, {k: snapshot_abs(p) for k, p in v.payloads.items()})
+    if isinstance(v, ValSlice): return ValSlice(list(v.elems), getattr(v, 'is_str', False))
+    return v
+
+
+def run_lengths(ctx, props):
+    cexs = []
+    for entry in ABS_ENTRIES:
+        h = run_harness(ctx, 'lengths-' + entry, body_lengths(entry), models=CODEC_MODELS + ABS_MODELS, subst=CODEC_SUBST)
+        c = [r for r in h.results if r['kind'] == 'cex' and any(f.startswith(tuple(props)) for f in r['failed'])]
+        cexs += c
+        ctx.obligations['%s: %s with vectors of every length < 2^32 (opaque elements; %d paths%s)' % ('/'.join(props), entry, sum(h.kinds.values()), ', %d cut at the element-loop bound' % h.kinds['cut'] if h.kinds.get('cut') else '')] = 'sat' if c else 'unsat'
+    hn = run_harness(ctx, 'negative-control-lengths', body_lengths('Variant', wrong=True), models=CODEC_MODELS + ABS_MODELS, subst=CODEC_SUBST); ctx.harnesses.pop()
+    if not any(r['kind'] == 'cex' for r in hn.results): raise CheckInconclusive('negative control (lengths) not refuted')
+    return cexs
+
+
 def replay_case(ctx, case, props):
+    if case.get('what') == 'lengths':
+        a = ctx.get_native().ask({'op': 'codec_lengths', 'entry': case['entry'], 'lens': case['lens'], 'defkind': case.get('defkind')})
+        if a.get('panic') or a.get('crashed'): return True, None, a
+        bad = []
+        if 'C07' in props and not a.get('roundtrip_ok'): bad.append('roundtrip')
+        if 'C06' in props and not a.get('ref_encode_ok'): bad.append('layout')
+        return bool(bad), None, a
     a = ctx.get_native().ask({'op': 'codec_roundtrip', 'types': case['types']})
     if a.get('panic') or a.get('crashed'): return True, None, a
     bad = []
@@ -119,8 +237,15 @@ def plan(T, seed=0):
 def run_plan(ctx, props, do):
     T = ctx.thorough()
     cexs = []
+    ctx.deferred = getattr(ctx, 'deferred', [])
     for name, kw in plan(T, ctx.seed):
-        h = run_harness(ctx, 'codec-' + name, body_codec(do=do, seed=ctx.seed, **kw), models=CODEC_MODELS, subst=CODEC_SUBST)
+        try:
+            h = run_harness(ctx, 'codec-' + name, body_codec(do=do, seed=ctx.seed, **kw), models=CODEC_MODELS, subst=CODEC_SUBST)
+        except CheckInconclusive as e:
+            # not executable on the current code: deferred - the other harnesses may still find a violation; without one the check ends inconclusive
+            ctx.deferred.append(str(e)[:400])
+            if ctx.harnesses and ctx.harnesses[-1].name == 'codec-' + name: ctx.harnesses.pop()
+            continue
         c = [r for r in h.results if r['kind'] == 'cex' and any(f.startswith(tuple(props)) for f in r['failed'])]
         cexs += c
         ctx.obligations['%s: %s (%d paths, %s bytes)' % ('/'.join(props), name, sum(h.kinds.values()), sorted({r.get('nbytes') for r in h.results if r['kind'] == 'ok'})[-1:] or '?')] = 'sat' if c else 'unsat'
@@ -133,6 +258,16 @@ def run_plan(ctx, props, do):
 def finish_cases(ctx, cexs, props):
     seen = set()
     for c in cexs:
+        if c.get('what') == 'lengths':
+            case = {k: v for k, v in c.items() if k != 'kind'}
+            key = json.dumps([case['entry'], case['lens'], case.get('defkind')], sort_keys=True)
+            if key in seen: continue
+            seen.add(key)
+            rep, role, a = replay_case(ctx, case, props)
+            case['native'] = a
+            ctx.report_case(case, rep, role)
+            if len(ctx.violations) >= 3: break
+            continue
         case = {'what': 'codec', 'types': c['types'], 'failed': c['failed'], 'lib_bytes': c['bytes']}
         key = json.dumps(case['types'], sort_keys=True)
         if key in seen: continue
@@ -196,10 +331,13 @@ def run(ctx):
                   'ids (PortableType.id and every reference)': 'full u32 range - all four compact size classes and their boundaries - for one-entry registries of every kind; < 64 (quick) / two classes (thorough) for multi-entry',
                   'strings': 'every well-formed UTF-8 string of 0, 1 or 2 bytes (uniform per run)', 'array len u32 / variant index u8': 'full range', 'registries': 'ids need not be dense (well-formed or not)'}
     ctx.outside = ['that the real codec\'s Vec/String/Option implementations round-trip (parity-scale-codec\'s own property: modelled; the scalar leaves are checked on the real codec by the Kani harnesses of C06)',
-                   'registries with more entries, longer vectors or strings than the bounds']
+                   'registries with more entries or longer strings than the bounds; element-dependent behaviour in vectors longer than the bounds (only the treatment of the length itself is covered for every length)']
     ctx.assumptions = ['codec primitives as modelled in mirsym/codec_models.py (validated against the real crate on concrete registries every run)', 'strings are well-formed UTF-8 (Rust type invariant of String)']
-    cexs = run_plan(ctx, ('C07',), ('roundtrip',))
+    ctx.bounds['vector lengths in the length-abstraction harnesses (Type, Variant, Field, PortableRegistry)'] = 'every length < 2^32, elements opaque; a hand-written per-element loop is followed for <= %d iterations' % ABS_ELEM_CAP
+    cexs = run_lengths(ctx, ('C07',))
+    cexs += run_plan(ctx, ('C07',), ('roundtrip',))
     finish_cases(ctx, cexs, ('C07',))
+    if ctx.deferred and not ctx.violations: raise CheckInconclusive('part of the check cannot be executed on the current code and no violation was found by the rest: ' + '; '.join(ctx.deferred)[:1500])
     ctx.samples.append({'obligation': 'per path of encode: decode(bytes) is Ok(v\') and v\' == v fieldwise and consumed == len(bytes)', 'verdict': 'unsat (negated) on all paths'})
     ctx.notes.append('injectivity: corollary of the round trip (decode is a function); determinism: the interpreted encode has no nondeterministic callee')
     if not ctx.violations: translator_validation(ctx, 60 if T else 25)
